@@ -9,6 +9,7 @@ import Psa.ConfigIO
 import Psa.FixtureCheck
 import Psa.MetricsIO
 import Psa.Generated.Tables
+import Psa.Deps
 /-! psa-driver: one JSON object per input line, one JSON object per output line. -/
 open Lean PSA PSA.IO
 
@@ -116,6 +117,19 @@ def handle (j : Json) : R Json := do
         | .mm 0 _ => []
         | .mm 1 _ | .latest => spec cs q.1 (clampV reg.maxVersion.minor q.2)
         | .mm _ _ => spec cs q.1 reg.maxVersion.minor))).toArray)]
+  | "getNs" =>
+    -- the namespace getter of admission/namespace.go: lister ∈ none | found | notFound | failed (found answers carry a marker)
+    let look (s : String) (mark : Nat) : R (Deps.Lookup Nat) := match s with
+      | "found" => pure (.found mark) | "notFound" => pure .notFound | "failed" => pure .failed
+      | x => throw s!"getNs: unknown answer {x}"
+    let lister ← match (← (← fld j "lister").getStr?) with
+      | "none" => pure none
+      | s => do pure (some (← look s 1))
+    let client ← look (← (← fld j "client").getStr?) 2
+    let o := Deps.getNamespace lister client
+    let res := match o.result with
+      | .found 1 => "found:lister" | .found _ => "found:client" | .notFound => "notFound" | .failed => "failed"
+    return Json.mkObj [("result", Json.str res), ("clientAsked", Json.bool o.clientAsked), ("listerAsked", Json.bool o.listerAsked)]
   | "admit" => admitOp j
   | _ => throw s!"unknown op {op}"
 
